@@ -172,7 +172,17 @@ def run_analysis(sc, observe=True):
         cur['trace'] = []
         return vals
 
+    # the optimisers of the repaired tree (C14 fix) set the returned solution explicitly after scipy returns:
+    # same effect on the lens as one more objective evaluation (update every variable, Optic.update())
+    orig_apply = getattr(optmod.OptimizerGeneric, '_apply_solution', None)
+
+    def logged_apply(self, x):
+        cur['trace'].append([float(v) for v in np.ravel(x)])
+        return orig_apply(self, x)
+
     optmod.OptimizerGeneric._fun = logged_fun
+    if orig_apply is not None:
+        optmod.OptimizerGeneric._apply_solution = logged_apply
     t.evaluate = logged_eval
     try:
         with quiet():
@@ -184,6 +194,8 @@ def run_analysis(sc, observe=True):
                 an.run()
     finally:
         optmod.OptimizerGeneric._fun = orig_fun
+        if orig_apply is not None:
+            optmod.OptimizerGeneric._apply_solution = orig_apply
     res['after_run'] = snapshot(o, WS, gl)
     with quiet():
         t.reset()
